@@ -357,4 +357,5 @@ add("C33", "where ignores the condition's structure", "nifty/re/tree_math/vector
 add("C33", "mean_and_std squares without the modulus", "nifty/re/tree_math/forest_math.py", "    std = scl * tree_map(jnp.sqrt, mean_of_sq - abs(m) ** 2)", "    std = scl * tree_map(jnp.sqrt, mean_of_sq - m**2)", "R33.7")
 add("C33", "None axis specification flattened itself", "nifty/re/custom_map.py", "        out_axes = tree_map(lambda el: None, y)\n        out_axes, out_axes_td = tree_flatten(out_axes, is_leaf=_int_or_none)\n    elif isinstance(out_axes, int):", "        out_axes, out_axes_td = tree_flatten(out_axes)\n    if isinstance(out_axes, int):", "R33.8")
 add("C13", "inverse-draw refusal of a sum built but not raised", "nifty/cl/operators/sum_operator.py", "            raise NotImplementedError(\n                \"cannot draw from inverse of this operator\")", "            NotImplementedError(\n                \"cannot draw from inverse of this operator\")", "R13.10")
+add("C16", "L-BFGS history reset only at construction", "nifty/cl/minimization/descent_minimizers.py", "    def __call__(self, energy):\n        self.reset()\n        return super(L_BFGS, self).__call__(energy)\n", "    def __call__(self, energy):\n        return super(L_BFGS, self).__call__(energy)\n", "R16.5")
 VARIANTS = V
